@@ -10,26 +10,30 @@ VARIABLES l, bad
 Trace == ndJsonDeserialize(IOEnv.VERIF_TRACE)
 
 \* got: <<[b |-> bytes, ts |-> Int]>>; exp: <<Msg>>;  time stamps are compared relative to `base`
-Match(exp, got, base) ==
+\* ts = FALSE: the origin of the driver's clock is unknown for this session, only content and moment are compared
+Match(exp, got, base, ts) ==
   LET e == NoFD(exp)
       g == SelectSeq(got, LAMBDA m : m.b # <<253>>)
   IN /\ Len(e) = Len(g)
      /\ \A i \in 1..Len(e) : /\ g[i].b = e[i].b
-                             /\ e[i].lo <= g[i].ts - base
-                             /\ g[i].ts - base <= e[i].hi
+                             /\ ts => /\ e[i].lo <= g[i].ts - base
+                                      /\ g[i].ts - base <= e[i].hi
 
 Judge(e) ==
   LET cfg  == [cap |-> e.cap, sysex |-> e.sysex, as |-> e.as, tc |-> e.tc]
-      \* listener level: the driver's clock origin is the wall clock at Listen; the first chunk is a
-      \* calibration message sent at dt = 0 whose stamp fixes the origin
-      base == IF e.lvl = "listen" /\ Len(e.chunks) > 0 /\ Len(e.chunks[1].out) > 0
-              THEN e.chunks[1].out[1].ts ELSE 0
+      \* listener level: the driver's clock origin is the wall clock at Listen.  The harness pins it (e.exact: stamps
+      \* are absolute, base 0); where it could not, a calibration Start byte sent first at dt = 0 fixes the origin,
+      \* and without one the stamps of the session are not judged (tsKnown)
+      calibrated == e.lvl = "listen" /\ ~e.exact /\ Len(e.chunks) > 0 /\ e.chunks[1].bytes = <<250>> /\ e.chunks[1].dt = 0
+                    /\ Len(e.chunks[1].out) > 0
+      base == IF calibrated THEN e.chunks[1].out[1].ts ELSE 0
+      tsKnown == e.lvl = "reader" \/ e.exact \/ calibrated
       r == FoldLeft(LAMBDA acc, c :
                       LET now == acc.now + c.dt
                           d   == Deliver(cfg, acc.s, c.bytes, now)
                           got == IF e.lvl = "reader" THEN ReaderView(c.out) ELSE c.out
                       IN [s |-> d.s, now |-> now,
-                          ok |-> acc.ok /\ Match(d.out, got, base),
+                          ok |-> acc.ok /\ Match(d.out, got, base, tsKnown),
                           exp |-> Append(acc.exp, [i \in 1..Len(d.out) |-> d.out[i].b])],
                     [s |-> Init0, now |-> 0, ok |-> TRUE, exp |-> <<>>], e.chunks)
       \* C14 clause: this session's deliveries are the projection of the all-options-on twin session
@@ -39,7 +43,7 @@ Judge(e) ==
                           LET proj == SelectSeq(e.twin[i], LAMBDA m : Len(m.b) = 0 \/ Passes(cfg, m))
                               own  == e.chunks[i].out
                           IN /\ Len(proj) = Len(own)
-                             /\ \A j \in 1..Len(own) : own[j].b = proj[j].b /\ own[j].ts - base = proj[j].ts - e.twinbase
+                             /\ \A j \in 1..Len(own) : own[j].b = proj[j].b /\ (tsKnown => own[j].ts - base = proj[j].ts - e.twinbase)
       \* e.judge = "model": C04/C06 -- the session must be what the receiver model delivers;
       \* e.judge = "twin" : C14 -- only the relation between the two real runs is judged
       ok == IF e.judge = "twin" THEN e.panic = "" /\ twinOk ELSE e.panic = "" /\ r.ok
